@@ -748,3 +748,21 @@ Proof.
   change ("0." ++ u) with ("0" ++ String "." u). rewrite H.
   change (dz "0") with 0%Z. rewrite Z.mul_0_l, Z.add_0_l. reflexivity.
 Qed.
+
+(** the guard of [unc_tokens_spec] for the usual short instances: digit-only uncertainty *)
+Lemma lit_text_ok_digits u : nonempty_digits u = true → lit_text_ok u = true.
+Proof.
+  intros Hu. destruct (literal_with_exponent_int u XNone Hu eq_refl) as (qv & A & _).
+  unfold lit_text_ok, float_of_text. rewrite A. reflexivity.
+Qed.
+Lemma inst_ok_short_as_found v u e :
+  lit_ok false v = true → nonempty_digits u = true → exp_ok e = true →
+  inst_ok as_found (NInst v (TyNumber, u) e SShort) = true.
+Proof.
+  intros Hv Hu He. unfold inst_ok. cbn [n_e n_style n_v n_u]. rewrite He, Hv. cbn [andb].
+  unfold lit_ok. cbn [fst snd]. rewrite (lit_text_ok_digits u Hu). cbn [andb].
+  unfold short_unc_text. cbn [q_short_prefix as_found].
+  destruct (nonempty_digits_all u Hu) as [Ha _].
+  rewrite (str_has_digits "." u Ha eq_refl).
+  unfold lit_text_ok, float_of_text. rewrite (short_prefix_value u Hu). reflexivity.
+Qed.
